@@ -131,11 +131,22 @@ Section Ident.
         + intros n0 t0 E E2. inversion E; subst. congruence.
         + reflexivity.
       - split; [intros _ n t E; discriminate|reflexivity]. }
-    assert (H3 : (match e_op e with Store _ n => truthy (txt n) | _ => true end) = true
-                 <-> (forall u n, e_op e = Store u n -> truthy (txt n) = true)).
+    assert (H3 : (match e_op e with
+                  | Store u n =>
+                      truthy (txt n)
+                      && (negb (eq_arg (fmt n) (Some NF_PERSISTENT))
+                          || match match_local_id (e_pre e) u (spq n) (nq n) with Ok None => true | _ => false end)
+                  | _ => true end) = true
+                 <-> (forall u n, e_op e = Store u n ->
+                        truthy (txt n) = true
+                        /\ (eq_arg (fmt n) (Some NF_PERSISTENT) = true ->
+                            match_local_id (e_pre e) u (spq n) (nq n) = Ok None))).
     { destruct (e_op e); split; intros H; try reflexivity; try (intros u0 n0 E; discriminate).
-      - intros u0 n0 E. inversion E; subst. exact H.
-      - apply (H u n eq_refl). }
+      - intros u0 n0 E. inversion E; subst. apply andb_true_iff in H as [Ha Hb]. split; [exact Ha|].
+        intros Hp. rewrite Hp in Hb. cbn [negb orb] in Hb.
+        destruct (match_local_id (e_pre e) u0 (spq n0) (nq n0)) as [[m|]|x]; try discriminate. reflexivity.
+      - destruct (H u n eq_refl) as [Ha Hb]. rewrite Ha. cbn [andb].
+        destruct (eq_arg (fmt n) (Some NF_PERSISTENT)); [|reflexivity]. rewrite (Hb eq_refl). reflexivity. }
     assert (H4 : (forall x, In x (cand cfg (e_op e)) -> negb (is_user x) = true)
                  <-> (forall t, In t (cand cfg (e_op e)) -> is_user t = false)).
     { split; intros H t Ht; [apply negb_true_iff|apply negb_true_iff]; apply H; exact Ht. }
@@ -469,7 +480,7 @@ Section Ident.
     destruct (adds cfg e) as [[[u s] q]|]; [|split; [intros _; intros; discriminate|reflexivity]].
     split.
     - intros H u0 s0 q0 E. inversion E; subst.
-      destruct (match_local_id (e_pre e) u0 s0 q0) as [[m|]|x]; try discriminate. reflexivity.
+      destruct (match_local_id_v0 (e_pre e) u0 s0 q0) as [[m|]|x]; try discriminate. reflexivity.
     - intros H. rewrite (H u s q eq_refl). reflexivity.
   Qed.
 
@@ -528,4 +539,13 @@ Proof.
       * destruct (String.eqb (euser x) (euser x')) eqn:Eu; [reflexivity|]. exfalso.
         apply String.eqb_neq in Eu. exact (H2 x v f x' v' f' Hin Hin' Ei (or_intror Eu) Ev).
       * exfalso. apply String.eqb_neq in Es. exact (H2 x v f x' v' f' Hin Hin' Ei (or_introl Es) Ev).
+Qed.
+
+Lemma same_extras_b_iff h : same_extras_b h = true <-> same_extras h.
+Proof.
+  unfold same_extras_b, same_extras. rewrite forallb_forall. split.
+  - intros H x x' Hx Hx'. specialize (H x Hx). rewrite forallb_forall in H.
+    apply (list_eqb_eq String.eqb String.eqb_eq). apply H. exact Hx'.
+  - intros H x Hx. apply forallb_forall. intros x' Hx'.
+    apply (list_eqb_eq String.eqb String.eqb_eq). apply H; assumption.
 Qed.
